@@ -43,8 +43,9 @@ theorem deviation_collection :
 /-- Inside the guard the matcher is exact, for annotations and values of ANY depth and any hierarchy:
 every view of the abstraction of `v` matches `a` iff the run-time value of `v` inhabits `a`.
 (`hD`: the expression denotes exactly its listed elements — the domain on which `member`, defined on expressions,
-is run-time membership; `hF`: the annotation is in grammar F2 for this hierarchy.) -/
-theorem match_exact_partial (H : Hierarchy) (v : Val) (a : Ann) (_hF : InF2 H a = true)
+is run-time membership; `hF`, `hV`: annotation and value are in fragment F2 — the domain on which the model is tied
+to the code.) -/
+theorem match_exact_partial (H : Hierarchy) (v : Val) (a : Ann) (_hF : InF2 H a = true) (_hV : v.inF2 = true)
     (_hD : v.pyDistinct = true) (hG : Guard v a = true) :
     «matches» H (abs v) a = true ↔ member H v a = true := by
   unfold «matches»
@@ -117,10 +118,10 @@ theorem singleView_of_small (v : Val) (h : v.allSub Val.smallDisplay = true) : (
 /-- END-TO-END: at each of the three sites an error is reported iff the value is outside the annotated type —
 inside the matcher guard and the site guard (arguments: single-element displays; assignment: not a bare `None`). -/
 theorem site_exact_partial (H : Hierarchy) (s : Site) (v : Val) (a : Ann) (hF : InF2 H a = true)
-    (hD : v.pyDistinct = true) (hG : Guard v a = true) (hs : SiteGuard s (abs v) = true) :
+    (hV : v.inF2 = true) (hD : v.pyDistinct = true) (hG : Guard v a = true) (hs : SiteGuard s (abs v) = true) :
     siteError H s (abs v) a = true ↔ member H v a = false := by
   rw [site_uniform H s (abs v) a hs]
-  have := match_exact_partial H v a hF hD hG
+  have := match_exact_partial H v a hF hV hD hG
   cases hm : «matches» H (abs v) a <;> cases hb : member H v a <;> simp_all
 
 /-! ## non-vacuity -/
@@ -133,17 +134,18 @@ def vDemo : Val := .dict [.str 1, .str 2] [.list [.inst 3, .inst 1], .list []]
 def aDemo : Ann := .gen2 .map (.base .str) (.gen1 .seq (.opt (.cls 1)))
 example : InF2 HD aDemo = true := by decide
 example : vDemo.pyDistinct = true := by decide
+example : vDemo.inF2 = true := by decide
 example : Guard vDemo aDemo = true := by decide
 example : (abs vDemo).singleView = false := by decide
 example : «matches» HD (abs vDemo) aDemo = true := by decide
-example : member HD vDemo aDemo = true := (match_exact_partial HD vDemo aDemo (by decide) (by decide) (by decide)).1 (by decide)
+example : member HD vDemo aDemo = true := (match_exact_partial HD vDemo aDemo (by decide) (by decide) (by decide) (by decide)).1 (by decide)
 /-- …and a rejecting instance of the theorem: K2() is not a K1 -/
 def vDemo' : Val := .dict [.str 1] [.list [.inst 3, .inst 2]]
 example : Guard vDemo' aDemo = true := by decide
 example : «matches» HD (abs vDemo') aDemo = false := by decide
 example : member HD vDemo' aDemo = false := by decide
 example : siteError HD .ret (abs vDemo') aDemo = true :=
-  (site_exact_partial HD .ret vDemo' aDemo (by decide) (by decide) (by decide) (by decide)).2 (by decide)
+  (site_exact_partial HD .ret vDemo' aDemo (by decide) (by decide) (by decide) (by decide) (by decide)).2 (by decide)
 /-- the guard admits unions with several parameterised options when the value has a single view -/
 example : Guard (.list [.int 1]) (.union [.gen1 .list (.base .int), .gen1 .list (.base .str)]) = true := by decide
 /-- and multi-binding values when the union has at most one non-flat option -/
